@@ -26,7 +26,7 @@ RULE = ("78 builtin models (multiplicity models at several multiplicities, P@S t
 ASSUMPTIONS = ["bumps is replaced by a minimal stub of bumps.parameter (Parameter.default boxes a value)",
                "2-D data for DirectModel/bumps carry no resolution columns (dqx_data = None) so that no smearing is applied"]
 REQUIRED_MONITORS = ["interfaces_agree", "selection_matches_reference_index", "unknown_name_refused"]
-REQUIRED_BUCKETS = {"quick": ["iface:kernel", "iface:DirectModel", "iface:keyword", "iface:sasview", "iface:bumps",
+REQUIRED_BUCKETS = {"quick": ["bumps:after-simulate-data", "iface:kernel", "iface:DirectModel", "iface:keyword", "iface:sasview", "iface:bumps",
                               "dim:1d", "dim:2d", "multiplicity", "product", "array_distribution", "select:mask",
                               "select:qlimits", "select:nan", "refuse:misspelt", "refuse:foreign", "refuse:pd_suffix", "refuse:bad_attribute",
                               "dispersity-on-vector-element:1d", "refuse:repeated-on-one-object", "sasview:clone-edited",
@@ -236,7 +236,18 @@ def run_agree(case, rec):
                                     "kernel_monodisperse": mono_ref, "other": other, "first_object_dispersity": pd})
         rec.bucket("sasview:second-object-of-class")
     bm = bumps_model.Model(model, **up)
-    res["bumps"] = np.asarray(bumps_model.Experiment(data_for(dim, q), bm, cutoff=cutoff).theory(), float)
+    ex_ = bumps_model.Experiment(data_for(dim, q), bm, cutoff=cutoff)
+    res["bumps"] = np.array(ex_.theory(), float)
+    if k % 2 == 0:
+        # the same experiment object used further (simulated data drawn from it, residuals asked for) still returns
+        # the model intensities as its theory
+        try:
+            ex_.simulate_data(noise=float(rng.uniform(2, 20)))
+            ex_.residuals()
+            res["bumps, same experiment after simulate_data"] = np.array(ex_.theory(), float)
+            rec.bucket("bumps:after-simulate-data")
+        except Exception as exc:   # pragma: no cover
+            rec.check("interfaces_agree", False, {"model": name, "interface": "bumps Experiment.simulate_data", "exception": repr(exc)})
     ref = res["kernel"]
     sc = float(np.nanmax(np.abs(ref))) if np.any(np.isfinite(ref)) else 1.0
     for iface, val in res.items():
